@@ -210,14 +210,148 @@ theorem frame_contextsCall {s : State} (h : WF s) : Frame s s.contextsCall.1 := 
     · exact Or.inl h1
     · exact Or.inr (Or.inl h1)
 
+/-! ### namespace-only extensions of a state -/
+
+theorem contextsCall_ns (s : State) : s.contextsCall.1.ns = s.ns := by
+  rw [contextsCall_fst]
+
+def State.setNs (s : State) (k : List Nat) : State := { s with ns := k }
+
+/-- `b` is `a` with (possibly) more prefix bindings and nothing else changed -/
+structure NsExt (a b : State) : Prop where
+  quads : b.quads = a.quads
+  known : b.known = a.known
+  union : b.defaultUnion = a.defaultUnion
+  isDataset : b.isDataset = a.isDataset
+  dname : b.dname = a.dname
+  mono : ∀ n ∈ a.ns, n ∈ b.ns
+
+theorem NsExt.refl (a : State) : NsExt a a := ⟨rfl, rfl, rfl, rfl, rfl, fun _ h => h⟩
+
+theorem NsExt.of_eq {a b : State} (h : b = a) : NsExt a b := h ▸ NsExt.refl a
+
+theorem NsExt.trans {a b c : State} (h1 : NsExt a b) (h2 : NsExt b c) : NsExt a c :=
+  ⟨h2.quads.trans h1.quads, h2.known.trans h1.known, h2.union.trans h1.union,
+   h2.isDataset.trans h1.isDataset, h2.dname.trans h1.dname, fun n hn => h2.mono n (h1.mono n hn)⟩
+
+theorem NsExt.eq_setNs {a b : State} (h : NsExt a b) : b = a.setNs b.ns := by
+  obtain ⟨h1, h2, h3, h4, h5, _⟩ := h
+  cases a; cases b
+  simp only [State.setNs] at *
+  subst h1 h2 h3 h4 h5
+  rfl
+
+theorem NsExt.setNs_of_sub {a : State} {k : List Nat} (h : ∀ n ∈ a.ns, n ∈ k) : NsExt a (a.setNs k) :=
+  ⟨rfl, rfl, rfl, rfl, rfl, h⟩
+
+theorem NsExt.wf {a b : State} (h : NsExt a b) (hw : WF a) : WF b := by
+  refine ⟨?_, ?_⟩
+  · intro q hq
+    rw [h.quads] at hq
+    rw [h.known]
+    exact hw.1 q hq
+  · rw [h.isDataset, h.dname]; exact hw.2
+
+theorem NsExt.frame {a b : State} (h : NsExt a b) : Frame a b := by
+  refine ⟨h.quads, h.union, h.isDataset, h.dname, ?_⟩
+  intro g
+  unfold State.graphNames
+  rw [h.known, h.dname]
+
+theorem contextsCall_setNs (s : State) (k : List Nat) :
+    (s.setNs k).contextsCall = (s.contextsCall.1.setNs k, s.contextsCall.2) := by
+  by_cases hd : s.isDataset = true
+  · by_cases h : GName.dflt ∈ s.known
+    · simp [State.contextsCall, State.setNs, hd, h]
+    · simp [State.contextsCall, State.register, State.setNs, hd, h]
+  · simp [State.contextsCall, State.setNs, hd]
+
+theorem NsExt.contextsCall {a b : State} (h : NsExt a b) : NsExt a.contextsCall.1 b.contextsCall.1 := by
+  rw [h.eq_setNs, contextsCall_setNs]
+  exact NsExt.setNs_of_sub (by rw [contextsCall_ns]; exact h.mono)
+
+theorem NsExt.contextsCall_snd {a b : State} (h : NsExt a b) : b.contextsCall.2 = a.contextsCall.2 := by
+  rw [h.eq_setNs, contextsCall_setNs]
+
+theorem bindNs_nsExt (s : State) (n : Nat) : NsExt s (s.bindNs n) :=
+  ⟨rfl, rfl, rfl, rfl, rfl, fun m hm => by simp only [State.bindNs, mem_sinsert]; exact Or.inr hm⟩
+
+theorem getQName_nsExt (s : State) (nsOf : Nat → Option Nat) (gen : Bool) (t : Nat) :
+    NsExt s (s.getQName nsOf gen t) := by
+  unfold State.getQName
+  split
+  · exact NsExt.refl s
+  · split
+    · exact bindNs_nsExt s _
+    · exact NsExt.refl s
+
+theorem preprocessTriples_nsExt (nsOf : Nat → Option Nat) : ∀ (ts : List Triple) (s : State),
+    NsExt s (preprocessTriples nsOf s ts)
+  | [], s => NsExt.refl s
+  | t :: ts, s => by
+    unfold preprocessTriples
+    exact (((getQName_nsExt s nsOf false t.1).trans (getQName_nsExt _ nsOf true t.2.1)).trans
+      (getQName_nsExt _ nsOf false t.2.2)).trans (preprocessTriples_nsExt nsOf ts _)
+
+theorem bindPredicates_nsExt (nsOf : Nat → Option Nat) : ∀ (ts : List Triple) (s : State),
+    NsExt s (bindPredicates nsOf s ts)
+  | [], s => NsExt.refl s
+  | t :: ts, s => by
+    unfold bindPredicates
+    exact (getQName_nsExt s nsOf true t.2.1).trans (bindPredicates_nsExt nsOf ts _)
+
+theorem bindTypes_nsExt (nsOf : Nat → Option Nat) (ty : Nat) : ∀ (ts : List Triple) (s : State),
+    NsExt s (bindTypes nsOf ty s ts)
+  | [], s => NsExt.refl s
+  | t :: ts, s => by
+    unfold bindTypes
+    split
+    · exact (getQName_nsExt s nsOf true t.2.2).trans (bindTypes_nsExt nsOf ty ts _)
+    · exact bindTypes_nsExt nsOf ty ts s
+
+theorem trigPreprocess_nsExt (nsOf : Nat → Option Nat) : ∀ (gs : List GName) (st : State) (ser : TrigSer),
+    NsExt st (trigPreprocess nsOf st ser gs).1
+  | [], st, _ => NsExt.refl st
+  | g :: gs, st, ser => by
+    unfold trigPreprocess
+    split
+    · exact trigPreprocess_nsExt nsOf gs st ser
+    · split
+      · exact (preprocessTriples_nsExt nsOf _ st).trans (trigPreprocess_nsExt nsOf gs _ _)
+      · exact (preprocessTriples_nsExt nsOf _ st).trans (trigPreprocess_nsExt nsOf gs _ _)
+
+/-- what the TriG serializer collects depends on the quads only -/
+theorem trigPreprocess_ser_congr (nsOf : Nat → Option Nat) : ∀ (gs : List GName) (a b : State) (ser : TrigSer),
+    a.quads = b.quads → (trigPreprocess nsOf a ser gs).2 = (trigPreprocess nsOf b ser gs).2
+  | [], _, _, _, _ => rfl
+  | g :: gs, a, b, ser, h => by
+    unfold trigPreprocess
+    rw [h]
+    have hq : (preprocessTriples nsOf a (triplesOf b.quads g)).quads
+        = (preprocessTriples nsOf b (triplesOf b.quads g)).quads := by
+      rw [(preprocessTriples_nsExt nsOf _ a).quads, (preprocessTriples_nsExt nsOf _ b).quads, h]
+    split
+    · exact trigPreprocess_ser_congr nsOf gs a b ser h
+    · split
+      · exact trigPreprocess_ser_congr nsOf gs _ _ _ hq
+      · exact trigPreprocess_ser_congr nsOf gs _ _ _ hq
+
 /-! ### the state after any read -/
 
-theorem run_state {s : State} (h : WF s) (r : ReadOp) :
+/-- reads that cannot bind a prefix leave the state at `s` or at `s.contextsCall.1`, literally -/
+theorem run_state_nobind {s : State} (h : WF s) (r : ReadOp) (hb : r.mayBind = false) :
     (s.run r).1 = s ∨ (s.run r).1 = s.contextsCall.1 := by
   cases r with
   | serializeFlat => exact Or.inl rfl
+  | serializeTurtle nsOf => simp [ReadOp.mayBind] at hb
+  | serializeLongTurtle nsOf c f => simp [ReadOp.mayBind] at hb
+  | serializeXml nsOf => simp [ReadOp.mayBind] at hb
+  | serializePrettyXml nsOf ty d => simp [ReadOp.mayBind] at hb
+  | serializeTrig nsOf => simp [ReadOp.mayBind] at hb
+  | qname nsOf t => simp [ReadOp.mayBind] at hb
   | serializeCtxs => exact Or.inr rfl
-  | serializeTrig => exact Or.inr rfl
+  | serializePatch => exact Or.inr rfl
+  | serializePatchTarget t => exact Or.inl rfl
   | serializeJsonld => exact Or.inr (jsonldRun_self _ _)
   | graphs => exact Or.inr rfl
   | iter => exact Or.inl rfl
@@ -262,30 +396,55 @@ theorem run_state {s : State} (h : WF s) (r : ReadOp) :
   | isomorphic g1 g2 d => exact Or.inl rfl
   | canonical g c => exact Or.inl rfl
   | diff g1 g2 c => exact Or.inl rfl
+  | skolemize sk => exact Or.inl rfl
+
+/-- every read leaves the state at `s` or at `s.contextsCall.1`, up to added prefix bindings -/
+theorem run_state {s : State} (h : WF s) (r : ReadOp) :
+    NsExt s (s.run r).1 ∨ NsExt s.contextsCall.1 (s.run r).1 := by
+  by_cases hb : r.mayBind = false
+  · rcases run_state_nobind h r hb with h1 | h1
+    · exact Or.inl (NsExt.of_eq h1)
+    · exact Or.inr (NsExt.of_eq h1)
+  · cases r with
+    | serializeTurtle nsOf =>
+      exact Or.inl ((preprocessTriples_nsExt nsOf _ s).trans (preprocessTriples_nsExt nsOf _ _))
+    | serializeLongTurtle nsOf c f =>
+      exact Or.inl ((preprocessTriples_nsExt nsOf _ s).trans (preprocessTriples_nsExt nsOf _ _))
+    | serializeXml nsOf =>
+      exact Or.inl ((bindPredicates_nsExt nsOf _ s).trans (bindPredicates_nsExt nsOf _ _))
+    | serializePrettyXml nsOf ty d =>
+      exact Or.inl ((bindPredicates_nsExt nsOf _ s).trans (bindTypes_nsExt nsOf ty _ _))
+    | serializeTrig nsOf => exact Or.inr (trigPreprocess_nsExt nsOf _ _ _)
+    | qname nsOf t => exact Or.inl (getQName_nsExt s nsOf true t)
+    | _ => exact absurd rfl hb
 
 theorem run_wf {s : State} (h : WF s) (r : ReadOp) : WF (s.run r).1 := by
-  rcases run_state h r with h1 | h1 <;> rw [h1]
-  · exact h
-  · exact contextsCall_wf h
+  rcases run_state h r with h1 | h1
+  · exact h1.wf h
+  · exact h1.wf (contextsCall_wf h)
 
 theorem run_frame {s : State} (h : WF s) (r : ReadOp) : Frame s (s.run r).1 := by
-  rcases run_state h r with h1 | h1 <;> rw [h1]
-  · exact Frame.refl s
-  · exact frame_contextsCall h
+  rcases run_state h r with h1 | h1
+  · exact h1.frame
+  · exact (frame_contextsCall h).trans h1.frame
 
 theorem runAll_state : ∀ (rs : List ReadOp) {s : State}, WF s →
-    s.runAll rs = s ∨ s.runAll rs = s.contextsCall.1
-  | [], _, _ => Or.inl rfl
+    NsExt s (s.runAll rs) ∨ NsExt s.contextsCall.1 (s.runAll rs)
+  | [], s, _ => Or.inl (NsExt.refl s)
   | r :: rs, s, h => by
     unfold State.runAll
+    have hw := run_wf h r
     rcases run_state h r with h1 | h1
-    · rw [h1]; exact runAll_state rs h
-    · rw [h1]
-      rcases runAll_state rs (contextsCall_wf h) with h2 | h2
-      · exact Or.inr h2
-      · rw [h2, contextsCall_idem_fst]; exact Or.inr rfl
+    · rcases runAll_state rs hw with h2 | h2
+      · exact Or.inl (h1.trans h2)
+      · exact Or.inr (h1.contextsCall.trans h2)
+    · rcases runAll_state rs hw with h2 | h2
+      · exact Or.inr (h1.trans h2)
+      · have h3 := h1.contextsCall
+        rw [contextsCall_idem_fst] at h3
+        exact Or.inr (h3.trans h2)
 
-/-! ### outputs do not depend on whether the default graph has been registered yet -/
+/-! ### outputs do not depend on whether the default graph has been registered yet, nor on prefix bindings -/
 
 theorem visible_cc (s : State) : s.contextsCall.1.visible = s.visible := by
   unfold State.visible
@@ -320,6 +479,59 @@ theorem qInit_congr {a b : State} (h : a.quads = b.quads) (lg : Bool) (docs : GN
       · rfl
       · exact qInit_congr h lg docs cs _
     · exact qInit_congr h lg docs cs _
+
+/-- the prefix bindings DESCRIBE copies into its fresh result graph do not influence the triples -/
+theorem describeAll_triples (active : List Triple) (isBlank : Nat → Bool) :
+    ∀ (rs : List Nat) (rg rg' : ResultGraph), rg.triples = rg'.triples →
+      (describeAll active isBlank rg rs).triples = (describeAll active isBlank rg' rs).triples
+  | [], _, _, h => h
+  | r :: rs, rg, rg', h => by
+    unfold describeAll
+    exact describeAll_triples active isBlank rs _ _ (by simp only [h])
+
+theorem finish_ns_irrel (k : QKind) (active : List Triple) (n1 n2 : List Nat) (rows : List (List Nat)) :
+    k.finish active n1 rows = k.finish active n2 rows := by
+  cases k with
+  | select => rfl
+  | ask => rfl
+  | construct tpl => rfl
+  | describe isBlank =>
+    simp only [QKind.finish]
+    rw [describeAll_triples active isBlank _ ⟨[], n1⟩ ⟨[], n2⟩ rfl]
+
+theorem answer_ns_irrel (q : QShape) (active : List Triple) (named : List (GName × List Triple))
+    (n1 n2 : List Nat) : q.answer active named n1 = q.answer active named n2 :=
+  finish_ns_irrel _ _ _ _ _
+
+/-- what the JSON-LD loop collects depends on the quads and the default name only -/
+structure JSim (a b : JAcc) : Prop where
+  quads : a.self.quads = b.self.quads
+  dname : a.self.dname = b.self.dname
+  scratch : a.scratch = b.scratch
+  named : a.named = b.named
+
+theorem jsonldLoop_sim (own : Bool) : ∀ (cs : List GName) (a b : JAcc), JSim a b →
+    JSim (jsonldLoop own a cs) (jsonldLoop own b cs)
+  | [], _, _, h => h
+  | g :: gs, a, b, h => by
+    unfold jsonldLoop
+    rw [h.named, h.dname, h.quads, h.scratch]
+    split
+    · exact jsonldLoop_sim own gs a b h
+    · split
+      · exact jsonldLoop_sim own gs _ _
+          (by constructor <;> first | rfl | exact h.quads | exact h.dname | exact h.scratch | exact h.named)
+      · exact jsonldLoop_sim own gs _ _
+          (by constructor <;> first | rfl | exact h.quads | exact h.dname | exact h.scratch | exact h.named)
+
+theorem jsonldOut_setNs (s1 : State) (k : List Nat) (cs : List GName) :
+    jsonldOut (s1.setNs k) (jsonldRun (s1.setNs k) cs) = jsonldOut s1 (jsonldRun s1 cs) := by
+  have hs : JSim (jsonldRun (s1.setNs k) cs) (jsonldRun s1 cs) := by
+    unfold jsonldRun
+    exact jsonldLoop_sim _ cs _ _ ⟨rfl, rfl, rfl, rfl⟩
+  unfold jsonldOut
+  rw [hs.scratch, hs.named, hs.quads]
+  rfl
 
 theorem readTriples4_eq {s : State} (h : WF s) (pat : Pat) (c : CtxArg) :
     s.readTriples4 pat c
@@ -372,8 +584,14 @@ theorem run_out_cc {s : State} (h : WF s) (r : ReadOp) :
   have h' := contextsCall_wf h
   cases r with
   | serializeFlat => simp only [State.run, State.serializeFlat, visible_cc]
+  | serializeTurtle nsOf => simp only [State.run, State.serializeTurtle, visible_cc]
+  | serializeLongTurtle nsOf c f => simp only [State.run, State.serializeLongTurtle, visible_cc]
+  | serializeXml nsOf => simp only [State.run, State.serializeXml, visible_cc]
+  | serializePrettyXml nsOf ty d => simp only [State.run, State.serializePrettyXml, visible_cc]
   | serializeCtxs => simp only [State.run, State.serializeCtxs, contextsCall_idem_fst, contextsCall_idem_snd]
-  | serializeTrig => simp only [State.run, State.serializeTrig, contextsCall_idem_fst, contextsCall_idem_snd]
+  | serializePatch => simp only [State.run, State.serializePatch, contextsCall_idem_fst, contextsCall_idem_snd]
+  | serializePatchTarget t => simp only [State.run, State.serializePatchTarget, contextsCall_quads]
+  | serializeTrig nsOf => simp only [State.run, State.serializeTrig, contextsCall_idem_fst, contextsCall_idem_snd]
   | serializeJsonld => simp only [State.run, State.serializeJsonld, contextsCall_idem_fst, contextsCall_idem_snd]
   | graphs => simp only [State.run, contextsCall_idem_snd]
   | iter => simp only [State.run, visible_cc]
@@ -390,7 +608,7 @@ theorem run_out_cc {s : State} (h : WF s) (r : ReadOp) :
     simp only [State.run, readQuads4_out h, readQuads4_out h', contextsCall_quads]
   | query q =>
     simp only [State.run, State.query, contextsCall_idem_fst, contextsCall_idem_snd, visible_cc,
-      qInit_congr (contextsCall_quads s)]
+      contextsCall_quads, contextsCall_ns, qInit_congr (contextsCall_quads s)]
     split
     · split <;> rfl
     · split
@@ -401,15 +619,173 @@ theorem run_out_cc {s : State} (h : WF s) (r : ReadOp) :
   | isomorphic g1 g2 d => simp only [State.run, contextsCall_quads]
   | canonical g c => simp only [State.run, contextsCall_quads]
   | diff g1 g2 c => simp only [State.run, contextsCall_quads]
+  | skolemize sk => simp only [State.run, visible_cc]
+  | qname nsOf t => rfl
+
+theorem wf_setNs {s : State} (h : WF s) (k : List Nat) : WF (s.setNs k) := h
+
+/-- the answer of a read does not depend on the prefix bindings -/
+theorem run_out_setNs {s : State} (h : WF s) (k : List Nat) (r : ReadOp) :
+    ((s.setNs k).run r).2 = (s.run r).2 := by
+  have h' : WF (s.setNs k) := wf_setNs h k
+  have hv : (s.setNs k).visible = s.visible := rfl
+  have hq : (s.setNs k).quads = s.quads := rfl
+  have hm : ∀ pat c, (s.setNs k).matching pat c = s.matching pat c := fun _ _ => rfl
+  have hc1 : (s.setNs k).contextsCall.1 = s.contextsCall.1.setNs k := by rw [contextsCall_setNs]
+  have hc2 : (s.setNs k).contextsCall.2 = s.contextsCall.2 := by rw [contextsCall_setNs]
+  have hv' : (s.contextsCall.1.setNs k).visible = s.contextsCall.1.visible := rfl
+  have hq' : (s.contextsCall.1.setNs k).quads = s.contextsCall.1.quads := rfl
+  cases r with
+  | serializeFlat => rfl
+  | serializeTurtle nsOf => rfl
+  | serializeLongTurtle nsOf c f => rfl
+  | serializeXml nsOf => rfl
+  | serializePrettyXml nsOf ty d => rfl
+  | serializeCtxs => simp only [State.run, State.serializeCtxs, hc1, hc2, hq']
+  | serializePatch => simp only [State.run, State.serializePatch, hc1, hc2, hq']
+  | serializePatchTarget t => rfl
+  | serializeTrig nsOf =>
+    simp only [State.run, State.serializeTrig, hc1, hc2]
+    rw [trigPreprocess_ser_congr nsOf _ (s.contextsCall.1.setNs k) s.contextsCall.1 _ rfl]
+    rfl
+  | serializeJsonld => simp only [State.run, State.serializeJsonld, hc1, hc2, jsonldOut_setNs]
+  | graphs => simp only [State.run, hc2]
+  | iter => rfl
+  | len => rfl
+  | slice pat => rfl
+  | contains3 pat => rfl
+  | triplesCtx pat g =>
+    simp only [State.run, readTriplesCtx_out h, readTriplesCtx_out h', hq, hm]
+  | triples4 pat c =>
+    simp only [State.run, readTriples4_eq h, readTriples4_eq h', hc1]
+    rfl
+  | contains4 pat c =>
+    simp only [State.run, readContains4_out h, readContains4_out h', hq, hm]
+  | quads4 pat c =>
+    simp only [State.run, readQuads4_out h, readQuads4_out h', hq]
+  | query q =>
+    simp only [State.run, State.query, hc1, hc2, hv, hv', hq, hq', qInit_congr hq]
+    split
+    · split
+      · exact answer_ns_irrel q _ _ _ _
+      · exact answer_ns_irrel q _ _ _ _
+    · split
+      · rfl
+      · split <;> rfl
+  | path p => rfl
+  | cbd n b => rfl
+  | isomorphic g1 g2 d => rfl
+  | canonical g c => rfl
+  | diff g1 g2 c => rfl
+  | skolemize sk => rfl
+  | qname nsOf t => rfl
+
+theorem run_out_nsExt {a b : State} (hw : WF a) (h : NsExt a b) (r : ReadOp) :
+    (b.run r).2 = (a.run r).2 := by
+  rw [h.eq_setNs]
+  exact run_out_setNs hw _ r
 
 theorem run_deterministic {s : State} (h : WF s) (r : ReadOp) :
     (s.run r).2 = ((s.run r).1.run r).2 := by
-  rcases run_state h r with h1 | h1 <;> rw [h1]
-  exact (run_out_cc h r).symm
+  rcases run_state h r with h1 | h1
+  · exact (run_out_nsExt h h1 r).symm
+  · rw [run_out_nsExt (contextsCall_wf h) h1 r]
+    exact (run_out_cc h r).symm
 
 theorem runAll_wf : ∀ (rs : List ReadOp) {s : State}, WF s → WF (s.runAll rs)
   | [], _, h => h
   | r :: rs, _, h => runAll_wf rs (run_wf h r)
+
+/-! ### which prefix bindings a read may add -/
+
+/-- `n` is a namespace the read `r` may bind on `s`: the namespace of a predicate (for pretty-xml also of a
+    class) the serializer writes, or of the IRI handed to `qname` -/
+def ReadOp.mayBindNs (s : State) (n : Nat) : ReadOp → Prop
+  | .serializeTurtle nsOf => ∃ t ∈ s.visible, nsOf t.2.1 = some n
+  | .serializeLongTurtle nsOf canon canonf =>
+    ∃ t ∈ (if canon then unionInto [] (canonf s.visible) else s.visible), nsOf t.2.1 = some n
+  | .serializeXml nsOf => ∃ t ∈ s.visible, nsOf t.2.1 = some n
+  | .serializePrettyXml nsOf ty _ =>
+    ∃ t ∈ s.visible, nsOf t.2.1 = some n ∨ (t.2.1 = ty ∧ nsOf t.2.2 = some n)
+  | .serializeTrig nsOf => ∃ q ∈ s.quads, nsOf q.1.2.1 = some n
+  | .qname nsOf t => nsOf t = some n
+  | _ => False
+
+theorem getQName_ns_mem {s : State} {nsOf : Nat → Option Nat} {gen : Bool} {t n : Nat}
+    (h : n ∈ (s.getQName nsOf gen t).ns) : n ∈ s.ns ∨ (gen = true ∧ nsOf t = some n) := by
+  unfold State.getQName at h
+  split at h
+  · exact Or.inl h
+  · next m hm =>
+    split at h
+    · next hg =>
+      simp only [State.bindNs, mem_sinsert] at h
+      rcases h with h | h
+      · exact Or.inr ⟨hg, by rw [hm, h]⟩
+      · exact Or.inl h
+    · exact Or.inl h
+
+theorem preprocessTriples_ns_mem (nsOf : Nat → Option Nat) : ∀ (ts : List Triple) (s : State) (n : Nat),
+    n ∈ (preprocessTriples nsOf s ts).ns → n ∈ s.ns ∨ ∃ t ∈ ts, nsOf t.2.1 = some n
+  | [], _, _, h => Or.inl h
+  | t :: ts, s, n, h => by
+    unfold preprocessTriples at h
+    rcases preprocessTriples_ns_mem nsOf ts _ n h with h1 | ⟨t', ht', hn⟩
+    · rcases getQName_ns_mem h1 with h2 | ⟨hf, _⟩
+      · rcases getQName_ns_mem h2 with h3 | ⟨_, hn⟩
+        · rcases getQName_ns_mem h3 with h4 | ⟨hf, _⟩
+          · exact Or.inl h4
+          · exact absurd hf (by decide)
+        · exact Or.inr ⟨t, List.mem_cons_self, hn⟩
+      · exact absurd hf (by decide)
+    · exact Or.inr ⟨t', List.mem_cons_of_mem _ ht', hn⟩
+
+theorem bindPredicates_ns_mem (nsOf : Nat → Option Nat) : ∀ (ts : List Triple) (s : State) (n : Nat),
+    n ∈ (bindPredicates nsOf s ts).ns → n ∈ s.ns ∨ ∃ t ∈ ts, nsOf t.2.1 = some n
+  | [], _, _, h => Or.inl h
+  | t :: ts, s, n, h => by
+    unfold bindPredicates at h
+    rcases bindPredicates_ns_mem nsOf ts _ n h with h1 | ⟨t', ht', hn⟩
+    · rcases getQName_ns_mem h1 with h2 | ⟨_, hn⟩
+      · exact Or.inl h2
+      · exact Or.inr ⟨t, List.mem_cons_self, hn⟩
+    · exact Or.inr ⟨t', List.mem_cons_of_mem _ ht', hn⟩
+
+theorem bindTypes_ns_mem (nsOf : Nat → Option Nat) (ty : Nat) : ∀ (ts : List Triple) (s : State) (n : Nat),
+    n ∈ (bindTypes nsOf ty s ts).ns → n ∈ s.ns ∨ ∃ t ∈ ts, t.2.1 = ty ∧ nsOf t.2.2 = some n
+  | [], _, _, h => Or.inl h
+  | t :: ts, s, n, h => by
+    unfold bindTypes at h
+    split at h
+    · next hty =>
+      rcases bindTypes_ns_mem nsOf ty ts _ n h with h1 | ⟨t', ht', hn⟩
+      · rcases getQName_ns_mem h1 with h2 | ⟨_, hn⟩
+        · exact Or.inl h2
+        · exact Or.inr ⟨t, List.mem_cons_self, hty, hn⟩
+      · exact Or.inr ⟨t', List.mem_cons_of_mem _ ht', hn⟩
+    · rcases bindTypes_ns_mem nsOf ty ts _ n h with h1 | ⟨t', ht', hn⟩
+      · exact Or.inl h1
+      · exact Or.inr ⟨t', List.mem_cons_of_mem _ ht', hn⟩
+
+theorem trigPreprocess_ns_mem (nsOf : Nat → Option Nat) : ∀ (gs : List GName) (st : State) (ser : TrigSer) (n : Nat),
+    n ∈ (trigPreprocess nsOf st ser gs).1.ns → n ∈ st.ns ∨ ∃ q ∈ st.quads, nsOf q.1.2.1 = some n
+  | [], _, _, _, h => Or.inl h
+  | g :: gs, st, ser, n, h => by
+    have step : ∀ ser', n ∈ (trigPreprocess nsOf (preprocessTriples nsOf st (triplesOf st.quads g)) ser' gs).1.ns →
+        n ∈ st.ns ∨ ∃ q ∈ st.quads, nsOf q.1.2.1 = some n := by
+      intro ser' h'
+      rcases trigPreprocess_ns_mem nsOf gs _ ser' n h' with h1 | ⟨q, hq, hn⟩
+      · rcases preprocessTriples_ns_mem nsOf _ st n h1 with h2 | ⟨t, ht, hn⟩
+        · exact Or.inl h2
+        · exact Or.inr ⟨(t, g), mem_triplesOf.mp ht, hn⟩
+      · rw [(preprocessTriples_nsExt nsOf _ st).quads] at hq
+        exact Or.inr ⟨q, hq, hn⟩
+    unfold trigPreprocess at h
+    split at h
+    · exact trigPreprocess_ns_mem nsOf gs st ser n h
+    · split at h
+      · exact step _ h
+      · exact step _ h
 
 /-! ### every state built through the store API is well-formed -/
 
